@@ -1,0 +1,56 @@
+// +build verif
+
+package rockredis
+
+import (
+	"errors"
+
+	"github.com/youzan/ZanRedisDB/engine"
+)
+
+// Verification hook (compiled only with -tags verif, add-only) used by the
+// reference-model checks C08-C10.
+//
+// VerifRunCompactFilter applies the compaction filter registered by
+// RegisterCompactCallback (rockCompactFilter.Filter - the code the RocksDB
+// engine calls for every key during a compaction under the wait-compact
+// expiration policy) to every key/value pair of the engine, in engine order,
+// and then deletes the entries the filter asked to drop: exactly the effect a
+// full manual compaction has on the RocksDB engine. The pebble and mem engines
+// ignore SetCompactionFilter, so without this hook the filter code cannot be
+// executed at all on the engines that run here. All decisions are taken first
+// (against the content before any deletion, like a compaction working on a
+// snapshot), then applied in one write batch. The caller must make sure that no
+// write is applied concurrently.
+func (r *RockDB) VerifRunCompactFilter() (checked int, dropped int, err error) {
+	cf := r.compactFilter
+	if cf == nil {
+		return 0, 0, errors.New("no compaction filter registered (not the wait-compact policy)")
+	}
+	it, err := r.rockEng.GetIterator(engine.IteratorOpts{})
+	if err != nil {
+		return 0, 0, err
+	}
+	var drop [][]byte
+	for it.SeekToFirst(); it.Valid(); it.Next() {
+		checked++
+		k := it.Key()
+		v := it.Value()
+		if remove, _ := cf.Filter(0, k, v); remove {
+			drop = append(drop, k)
+		}
+	}
+	it.Close()
+	if len(drop) == 0 {
+		return checked, 0, nil
+	}
+	wb := r.rockEng.NewWriteBatch()
+	defer wb.Destroy()
+	for _, k := range drop {
+		wb.Delete(k)
+	}
+	if err := r.rockEng.Write(wb); err != nil {
+		return checked, 0, err
+	}
+	return checked, len(drop), nil
+}
